@@ -880,11 +880,6 @@ class BeartypeConf(object):
                 warning_cls_on_decorator_exception,
             )
 
-            # If this method has already instantiated a configuration with these
-            # parameters, return that configuration for consistency and
-            # efficiency.
-            if conf_args in _beartype_conf_args_to_conf:
-                return _beartype_conf_args_to_conf[conf_args]
             # Else, this method has *NOT* yet instantiated a configuration with
             # these parameters. In this case, continue to do so and then cache
             # that configuration.
@@ -924,6 +919,19 @@ class BeartypeConf(object):
 
             # Sanify all passed parameters *AFTER* validating these parameters.
             sanify_conf_kwargs(conf_kwargs)
+
+            # If this method has already instantiated a configuration with these
+            # parameters, return that configuration for consistency and
+            # efficiency.
+            #
+            # Note that this lookup is intentionally deferred until *AFTER*
+            # validating these parameters above. Dictionary lookup compares keys
+            # by equality rather than identity. Invalid parameters equal to valid
+            # parameters (e.g., the integer "1", which is equal to but *NOT* the
+            # boolean "True") would otherwise be silently accepted whenever an
+            # equal valid configuration had been previously instantiated.
+            if conf_args in _beartype_conf_args_to_conf:
+                return _beartype_conf_args_to_conf[conf_args]
 
             # ..................{ INSTANTIATE                }..................
             # Instantiate a new configuration of this type.
